@@ -276,6 +276,52 @@ func (s *tokState) fullKey() string {
 	return s.govKey() + "|" + strings.Join(l, ";") + "|" + s.GASSupply.String()
 }
 
+// exactKey renders every decoded field (incl. balance heights and reward
+// snapshots) in a canonical order.
+func (s *tokState) exactLines() []string {
+	var l []string
+	for h, a := range s.NEO {
+		l = append(l, fmt.Sprintf("NEO %s = %s h=%d vote=%s gpv=%s", h.StringLE(), a.Balance, a.Height, a.VoteTo, a.LastGPV))
+	}
+	for h, b := range s.GAS {
+		l = append(l, fmt.Sprintf("GAS %s = %s", h.StringLE(), b))
+	}
+	for k, c := range s.Cands {
+		l = append(l, fmt.Sprintf("candidate %s = %v/%s", k, c.Registered, c.Votes))
+	}
+	for h, d := range s.Deposits {
+		l = append(l, fmt.Sprintf("deposit %s = %s till %d", h.StringLE(), d.Amount, d.Till))
+	}
+	l = append(l, "voters = "+s.Voters.String(), "NEO supply = "+s.NEOSupply.String(), "GAS supply = "+s.GASSupply.String(), fmt.Sprintf("other items = %d", s.Other))
+	sort.Strings(l)
+	return l
+}
+
+// diff names the first fields in which two states differ ("" = equal).
+func (s *tokState) diff(o *tokState) string {
+	a, b := s.exactLines(), o.exactLines()
+	in := map[string]bool{}
+	for _, x := range b {
+		in[x] = true
+	}
+	var d []string
+	for _, x := range a {
+		if !in[x] {
+			d = append(d, "never restarted: "+x)
+		}
+		delete(in, x)
+	}
+	for _, x := range b {
+		if in[x] {
+			d = append(d, "restarted: "+x)
+		}
+	}
+	if len(d) > 6 {
+		d = d[:6]
+	}
+	return strings.Join(d, "; ")
+}
+
 // viol is one broken conservation law.
 type viol struct {
 	Inv string `json:"invariant"`
@@ -370,6 +416,7 @@ type blockEvents struct {
 	N        int                       // Transfer events counted
 	Mints    int
 	Burns    int
+	Neg      []string // Transfer events with a negative amount
 	Execs    []execStat
 }
 
@@ -441,6 +488,9 @@ func collectEvents(n *chainx.Node, b *block.Block) (*blockEvents, error) {
 					return fmt.Errorf("%s: Transfer.amount: %w", what, err)
 				}
 				ev.N++
+				if amt.Sign() < 0 {
+					ev.Neg = append(ev.Neg, fmt.Sprintf("%s Transfer event of %s with amount %s", what, e.ScriptHash.StringLE()[:8], amt))
+				}
 				if from != nil {
 					addTo(m, *from, amt, -1)
 				} else {
@@ -614,11 +664,50 @@ func crossCheck(n *chainx.Node, s *tokState, probes []util.Uint160) error {
 			return fmt.Errorf("decoded registered candidate %s (votes %s) is not in GetEnrollments and not blocked", k, c.Votes)
 		}
 	}
-	// totalSupply of both tokens, GAS.balanceOf(Notary) and the candidates' votes through a test invocation
+	// The contracts' own read methods through one test invocation: totalSupply,
+	// symbol, decimals, GAS.balanceOf(Notary), NEO.getCandidateVote/getCandidates/
+	// getAccountState, Notary.balanceOf/expirationOf.
+	type q struct {
+		name  string
+		check func(it stackitem.Item) error
+	}
 	var script []byte
-	script = append(script, chainx.CallScript(nativehashes.NeoToken, "totalSupply")...)
-	script = append(script, chainx.CallScript(nativehashes.GasToken, "totalSupply")...)
-	script = append(script, chainx.CallScript(nativehashes.GasToken, "balanceOf", nativehashes.Notary)...)
+	var qs []q
+	ask := func(h util.Uint160, name string, check func(it stackitem.Item) error, method string, args ...any) {
+		script = append(script, chainx.CallScript(h, method, args...)...)
+		qs = append(qs, q{name, check})
+	}
+	wantInt := func(w *big.Int) func(stackitem.Item) error {
+		return func(it stackitem.Item) error {
+			got, err := it.TryInteger()
+			if err != nil {
+				return err
+			}
+			if w == nil {
+				w = new(big.Int)
+			}
+			if got.Cmp(w) != 0 {
+				return fmt.Errorf("decoded %s, invocation %s", w, got)
+			}
+			return nil
+		}
+	}
+	wantStr := func(w string) func(stackitem.Item) error {
+		return func(it stackitem.Item) error {
+			b, err := it.TryBytes()
+			if err != nil || string(b) != w {
+				return fmt.Errorf("want %q, invocation %q (%v)", w, b, err)
+			}
+			return nil
+		}
+	}
+	ask(nativehashes.NeoToken, "NEO.totalSupply", wantInt(s.NEOSupply), "totalSupply")
+	ask(nativehashes.GasToken, "GAS.totalSupply", wantInt(s.GASSupply), "totalSupply")
+	ask(nativehashes.GasToken, "GAS.balanceOf(Notary)", wantInt(s.GAS[nativehashes.Notary]), "balanceOf", nativehashes.Notary)
+	ask(nativehashes.NeoToken, "NEO.symbol", wantStr("NEO"), "symbol")
+	ask(nativehashes.GasToken, "GAS.symbol", wantStr("GAS"), "symbol")
+	ask(nativehashes.NeoToken, "NEO.decimals", wantInt(big.NewInt(0)), "decimals")
+	ask(nativehashes.GasToken, "GAS.decimals", wantInt(big.NewInt(8)), "decimals")
 	var regd []string
 	for k, c := range s.Cands {
 		if c.Registered {
@@ -628,7 +717,98 @@ func crossCheck(n *chainx.Node, s *tokState, probes []util.Uint160) error {
 	sort.Strings(regd)
 	for _, k := range regd {
 		kb, _ := hex.DecodeString(k)
-		script = append(script, chainx.CallScript(nativehashes.NeoToken, "getCandidateVote", kb)...)
+		ask(nativehashes.NeoToken, "NEO.getCandidateVote("+k[:10]+")", wantInt(s.Cands[k].Votes), "getCandidateVote", kb)
+	}
+	ask(nativehashes.NeoToken, "NEO.getCandidates", func(it stackitem.Item) error {
+		arr, ok := it.Value().([]stackitem.Item)
+		if !ok {
+			return fmt.Errorf("not an array")
+		}
+		n := 0
+		for _, e := range arr {
+			f, ok := e.Value().([]stackitem.Item)
+			if !ok || len(f) != 2 {
+				return fmt.Errorf("bad element")
+			}
+			kb, err := f[0].TryBytes()
+			if err != nil {
+				return err
+			}
+			v, err := f[1].TryInteger()
+			if err != nil {
+				return err
+			}
+			c := s.Cands[hex.EncodeToString(kb)]
+			if c == nil || !c.Registered || c.Votes.Cmp(v) != 0 {
+				return fmt.Errorf("%x=%s: decoded %+v", kb, v, c)
+			}
+			n++
+		}
+		if n != len(en) {
+			return fmt.Errorf("%d candidates, GetEnrollments %d", n, len(en))
+		}
+		return nil
+	}, "getCandidates")
+	var holders []util.Uint160
+	for h := range s.NEO {
+		holders = append(holders, h)
+	}
+	sort.Slice(holders, func(i, j int) bool { return holders[i].Less(holders[j]) })
+	for _, h := range holders {
+		a := s.NEO[h]
+		ask(nativehashes.NeoToken, "NEO.getAccountState("+h.StringLE()[:8]+")", func(it stackitem.Item) error {
+			f, ok := it.Value().([]stackitem.Item)
+			if !ok || len(f) != 4 {
+				return fmt.Errorf("not a 4-field struct: %s", it.Type())
+			}
+			b, e1 := f[0].TryInteger()
+			ht, e2 := f[1].TryInteger()
+			g, e3 := f[3].TryInteger()
+			if e1 != nil || e2 != nil || e3 != nil {
+				return fmt.Errorf("bad fields")
+			}
+			vt := ""
+			if f[2].Type() != stackitem.AnyT {
+				kb, err := f[2].TryBytes()
+				if err != nil {
+					return err
+				}
+				vt = hex.EncodeToString(kb)
+			}
+			if b.Cmp(a.Balance) != 0 || ht.Uint64() != uint64(a.Height) || vt != a.VoteTo || g.Cmp(a.LastGPV) != 0 {
+				return fmt.Errorf("decoded (%s,%d,%s,%s), invocation (%s,%s,%s,%s)", a.Balance, a.Height, a.VoteTo, a.LastGPV, b, ht, vt, g)
+			}
+			return nil
+		}, "getAccountState", h)
+	}
+	depAccs := map[util.Uint160]bool{}
+	for h := range s.Deposits {
+		depAccs[h] = true
+	}
+	for _, h := range probes {
+		depAccs[h] = true
+	}
+	var dl []util.Uint160
+	for h := range depAccs {
+		dl = append(dl, h)
+	}
+	sort.Slice(dl, func(i, j int) bool { return dl[i].Less(dl[j]) })
+	if bc.GetContractState(nativehashes.Notary) != nil {
+		for _, h := range dl {
+			amt, till := new(big.Int), uint32(0)
+			if d := s.Deposits[h]; d != nil {
+				amt, till = d.Amount, d.Till
+			}
+			ask(nativehashes.Notary, "Notary.balanceOf("+h.StringLE()[:8]+")", wantInt(amt), "balanceOf", h)
+			ask(nativehashes.Notary, "Notary.expirationOf("+h.StringLE()[:8]+")", wantInt(big.NewInt(int64(till))), "expirationOf", h)
+		}
+	}
+	for _, h := range probes {
+		if _, ok := s.Deposits[h]; !ok {
+			if t := bc.GetNotaryDepositExpiration(h); t != 0 {
+				return fmt.Errorf("deposit %s: no decoded item, expiration getter %d", h.StringLE(), t)
+			}
+		}
 	}
 	// The invocation runs "in" the top block: a fake next block could sit on a
 	// hardfork boundary where the stored manifests are not yet updated.
@@ -646,30 +826,12 @@ func crossCheck(n *chainx.Node, s *tokState, probes []util.Uint160) error {
 		return fmt.Errorf("test invocation: %w", err)
 	}
 	st := ic.VM.Estack().ToArray()
-	if len(st) != 3+len(regd) {
-		return fmt.Errorf("test invocation returned %d items", len(st))
-	}
-	want := []*big.Int{s.NEOSupply, s.GASSupply, s.GAS[nativehashes.Notary]}
-	names := []string{"NEO.totalSupply", "GAS.totalSupply", "GAS.balanceOf(Notary)"}
-	for _, k := range regd {
-		want = append(want, s.Cands[k].Votes)
-		names = append(names, "NEO.getCandidateVote("+k[:10]+")")
+	if len(st) != len(qs) {
+		return fmt.Errorf("test invocation returned %d items, want %d", len(st), len(qs))
 	}
 	for i, it := range st {
-		got, err := it.TryInteger()
-		if err != nil {
-			return fmt.Errorf("%s: %w", names[i], err)
-		}
-		w := want[i]
-		if w == nil {
-			w = new(big.Int)
-		}
-		if got.Cmp(w) != 0 {
-			var all []string
-			for _, x := range st {
-				all = append(all, chainx.ItemString(x))
-			}
-			return fmt.Errorf("%s: decoded %s, invocation %s (stack %v, script %x)", names[i], w, got, all, script)
+		if err := qs[i].check(it); err != nil {
+			return fmt.Errorf("%s: %w", qs[i].name, err)
 		}
 	}
 	return nil
